@@ -12,6 +12,10 @@ Correspondence driver for C19. Input: the lines printed by `harness/h3_named.cpp
 * `e2e-init <hexSeparator>`, `san b`, `cache-clear`, `log <id> <vals> <hexT> <san> <thr> <fv,…> => msg=… pairs=… hdr=… json=…`,
   `cache-dump => …` — the real backend + recording sink + `JsonFileSink`; the driver runs `Named.backendStep` with its
   own cache and `Named.jsonLine` with the extracted layout.
+* `jf-begin <case>`, `jlog <id> <vals> <ok|gen:<k>|write> <hexT> pairs=… hdr=… => wrote=<hex|-> reports=<n>`, `jf-end <case>` —
+  a `JsonFileSink` subclass whose `generate_json_message` override throws after `k` bytes of the record, or whose
+  `before_write` hook throws; the driver runs `Named.jsonWrite` (the sink's line buffer across statements) with the
+  extracted position of `_json_message.clear()` and compares the bytes that reached the file and the reports.
 -/
 namespace Drv.Named
 open _root_.Named
@@ -44,6 +48,23 @@ def decPiece (w : String) : Option Piece :=
 
 def decPieces (s : String) : Option (List Piece) :=
   if s == "-" then some [] else (s.splitOn ",").mapM decPiece
+
+def decPairs (s : String) : Option (List (Str × Str)) :=
+  if s == "-" then some []
+  else (s.splitOn ",").mapM (fun item =>
+    match item.splitOn "/" with
+    | [k, v] => do
+      let kb ← Drv.unhex k
+      let vb ← Drv.unhex v
+      pure (ofBytes kb, ofBytes vb)
+    | _ => none)
+
+def faultOf (w : String) : Option JFault :=
+  if w == "ok" then some .none
+  else if w == "write" then some .write
+  else match w.splitOn ":" with
+    | ["gen", k] => k.toNat?.map .generate
+    | _ => none
 
 structure Tot where
   lines : Nat := 0
@@ -127,6 +148,14 @@ def run : IO UInt32 := do
   let mut lineNo := 0
   let mut segLogs := 0
   let mut segHits := 0
+  -- the throwing JSON sink: its buffer, and per-case counters
+  let mut jsink : JSink := {}
+  let mut jStmts := 0
+  let mut jFaults := 0
+  let mut jAfterFault := 0   -- non-faulted statements written right after a fault that left bytes in the buffer
+  let mut jLeft := false
+  let mut jCases := 0
+  let mut jLines := 0
   for line in lines do
     lineNo := lineNo + 1
     if line.isEmpty || line.startsWith "#" || line.startsWith "ORACLE" || line.startsWith "STATS" then continue
@@ -165,6 +194,39 @@ def run : IO UInt32 := do
       if m != obsS then
         IO.println s!"MISMATCH line={lineNo} cache-dump impl=[{obsS}] model=[{m}]"
         t := { t with mismatches := t.mismatches + 1 }
+    | ["jf-begin", _cid] =>
+      jsink := {}
+      jStmts := 0
+      jFaults := 0
+      jAfterFault := 0
+      jLeft := false
+      jCases := jCases + 1
+    | ["jf-end", cid] =>
+      IO.println s!"TRACE jf{cid} stmts={jStmts} faults={jFaults} written_after_leftover={jAfterFault}"
+    | ["jlog", id, _vals, fw, hexT, pairsW, hdrW] =>
+      t := { t with lines := t.lines + 1 }
+      jLines := jLines + 1
+      jStmts := jStmts + 1
+      let hdrOpt := (((hdrW.drop 4).toString).splitOn ",").mapM (fun h => (Drv.unhex h).map ofBytes)
+      match faultOf fw, strOfHex hexT, decPairs ((pairsW.drop 6).toString), hdrOpt with
+      | some f, some tm, some ps, some [ts, file, ln, tid, lg, lvl] =>
+        let h : Hdr := { timestamp := ts, fileName := file, line := ln, threadId := tid, logger := lg, logLevel := lvl }
+        let record := jsonRecord Extracted.jsonLayout h tm (some ps)
+        let s0 : JSink := { jsink with file := [] }
+        let s1 := jsonWrite Extracted.jsonSinkParams s0 record f
+        let mobs := s!"wrote={hexOrDash s1.file} reports={s1.reports - jsink.reports}"
+        if f != .none then jFaults := jFaults + 1
+        if f == .none && jLeft then jAfterFault := jAfterFault + 1
+        -- what a sink that never clears first would have found in its buffer
+        jLeft := match f with
+          | .generate k => k > 0 || (jLeft && f != .none)
+          | .write => true
+          | .none => false
+        jsink := s1
+        if mobs != obsS then
+          IO.println s!"MISMATCH line={lineNo} jlog id={id} fault={fw} impl=[{obsS}] model=[{mobs}]"
+          t := { t with mismatches := t.mismatches + 1 }
+      | _, _, _, _ => IO.println s!"BAD-OP line {lineNo}: {line}"; t := { t with problems := t.problems + 1 }
     | ["log", id, _vals, hexT, san, thr, fvs] =>
       t := { t with lines := t.lines + 1, logs := t.logs + 1 }
       segLogs := segLogs + 1
@@ -208,6 +270,8 @@ def run : IO UInt32 := do
     IO.println s!"TRACE seg{t.segments} logs={segLogs} cache_hits={segHits} cache_size={cache.length}"
   if t.scan > 0 then
     IO.println s!"TRACE scan lines={t.scan} in_grammar={t.scanGrammar} good_both={t.scanGoodBoth} outside_procOK={t.scanBadProc} outside_detectOK={t.scanBadDetect} with_named_field={t.scanNamed} theorem_instances_checked={t.thmChecked}"
+  if jCases > 0 then
+    IO.println s!"TRACE jsonfaults cases={jCases} statements={jLines}"
   IO.println s!"DONE lines={t.lines} mismatches={t.mismatches} problems={t.problems} scan={t.scan} logs={t.logs} logs_named={t.logsNamed} logs_err={t.logsErr} cache_hits={t.cacheHits} cache_misses={t.cacheMisses} cache_dumps={t.dumps} segments={t.segments}"
   return (if t.mismatches + t.problems == 0 then 0 else 1)
 
